@@ -10,7 +10,8 @@ deliberately split in two steps — `enc` = `session.obfuscate(&s.writingFrame, 
 `inc` = `s.writingFrame.Seq++` — so that only the mutex makes the pair atomic.  Whether a program
 contains the `lock`/`unlock` steps, and whether `inc` precedes `send`, is decided by the facts the
 extractor regenerates from the Go source (`Gen.Sender.lockWrite/lockReadFrom/lockClose`,
-`Gen.Sender.seqIncrAfterObfuscate`). -/
+`Gen.Sender.seqIncrAfterObfuscate`; `Gen.Sender.readFromChkUnderLock`: whether `ReadFrom`'s closed-test is made
+inside the critical section that sends the chunk — it was not before /repo 6ee9036). -/
 
 namespace SN
 
@@ -119,16 +120,20 @@ structure Shape where
   lockReadFrom : Bool
   lockClose : Bool
   incFirst : Bool
+  chkInRF : Bool      -- `ReadFrom` makes its closed-test under the mutex, in the section that sends the chunk
 deriving DecidableEq, Repr
 
 def Call.progW (sh : Shape) : Call → List Instr
   | .write fs => sect sh.lockWrite (.chk :: fs.flatMap (fun x => frameI sh.incFirst false x.1 x.2))
-  | .readFrom cs => cs.flatMap (fun x => .chk :: sect sh.lockReadFrom (frameI sh.incFirst false x.1 x.2))
+  | .readFrom cs =>
+    if sh.chkInRF then cs.flatMap (fun x => sect sh.lockReadFrom (.chk :: frameI sh.incFirst false x.1 x.2))
+    else cs.flatMap (fun x => .chk :: sect sh.lockReadFrom (frameI sh.incFirst false x.1 x.2))
   | .close pl r => sect sh.lockClose (.cas :: frameI sh.incFirst true pl r)
 
 /-- the shape of the code under check -/
 def genShape : Shape :=
-  ⟨Gen.Sender.lockWrite, Gen.Sender.lockReadFrom, Gen.Sender.lockClose, Gen.Sender.seqIncrAfterObfuscate⟩
+  ⟨Gen.Sender.lockWrite, Gen.Sender.lockReadFrom, Gen.Sender.lockClose, Gen.Sender.seqIncrAfterObfuscate,
+   Gen.Sender.readFromChkUnderLock⟩
 
 def Call.prog (c : Call) : List Instr := c.progW genShape
 
